@@ -1,4 +1,6 @@
 """C11 family: block operands evaluated once, before their step, in branch-then-position order."""
+import re
+
 from . import dsl
 from . import fam_profiles as fp
 from . import kinds as K
@@ -8,7 +10,7 @@ from .e2 import Prog
 NO_CAPTURE_OPS = ("..", ">.", "=>[]", "<->", "|n>", "^^>")
 
 
-def capturize(row, site, which=None):
+def capturize(row, site, which=None, valueonly=False):
     """every expression operand of the row (or only operand `which`) becomes a block capture logging `c.<site>.<operand index>`"""
     # an untyped `|_|` inspect closure cannot be hoisted: its higher-ranked signature is only inferred at the call
     # site of the sync inspect helper (Rust closure inference, DESIGN §3.3/§3.16)
@@ -17,7 +19,11 @@ def capturize(row, site, which=None):
     ops = []
     for i, t in enumerate(row.operands):
         if which is None or which == i:
-            ops.append(B('ev0("c.%s.%d"); %s' % (site, i, t)))
+            if valueonly:
+                # a block WITHOUT statements whose value is a call with a visible evaluation: `{ lg(site, operand) }`
+                ops.append(B('lg("c.%s.%d", %s)' % (site, i, t)))
+            else:
+                ops.append(B('ev0("c.%s.%d"); %s' % (site, i, t)))
         else:
             ops.append(O(t))
     return Op(row.op, ops), (len(ops) if which is None else 1)
@@ -72,20 +78,24 @@ def chain_programs(tier):
             labels = "-".join(r.label for r in chain)
             # `~` placements: none / before the last operator / before every operator
             two = any(len(r.operands) == 2 and r.op in ("^@", "?^@") for r in chain)
-            for dmode in (0, 1, 2, 3, 4):
+            for dmode in (0, 1, 2, 3, 4, 5):
                 if dmode == 2 and len(chain) < 2:
                     continue
-                if dmode >= 3 and not two:
+                if dmode in (3, 4) and not two:
                     continue  # 3 / 4: only the first / only the second operand of fold, try_fold is a block
-                which = None if dmode < 3 else dmode - 3
+                # 5: like 1, but every capture is a statement-less block `{ call(..) }`; untyped closure parameters cannot be inferred
+                # through the logging call
+                if dmode == 5 and any(re.search(r"\|\s*[a-z_][a-z0-9_]*\s*(,\s*[a-z_][a-z0-9_]*\s*)*\|", t) for r_ in chain for t in r_.operands):
+                    continue
+                which = None if dmode not in (3, 4) else dmode - 3
                 items = []
                 ncap = 0
                 step = 0
                 for i, row in enumerate(chain):
-                    deferred = (dmode == 1 and i == len(chain) - 1) or dmode == 2
+                    deferred = (dmode in (1, 5) and i == len(chain) - 1) or dmode == 2
                     if deferred:
                         step += 1
-                    it, n = capturize(row, "%d.0.%d" % (step, i + 1), which if len(row.operands) == 2 else None)
+                    it, n = capturize(row, "%d.0.%d" % (step, i + 1), which if len(row.operands) == 2 else None, valueonly=(dmode == 5))
                     ncap += n
                     ops_seen.add(row.op)
                     it.deferred = deferred
@@ -95,6 +105,8 @@ def chain_programs(tier):
                 # a hoisted initial value is an immutable binding: `&mut self` operators cannot follow it directly (DESIGN §3.15)
                 if chain[0].op in ("?@", "?|>@", "?^@"):
                     x = Branch(O(init), items)
+                elif dmode == 5:
+                    x = Branch(B('lg("c.0.0.0.0", %s)' % init), items)
                 else:
                     x = Branch(B('ev0("c.0.0.0.0"); %s' % init), items)
                 for layout in ("2", "3"):
